@@ -159,15 +159,48 @@ def patterned_solve_case(fggs, rng, S, viols, obs):
     import torch, numpy as np
     I = env.mod('fggs.indices')
     T = TP.gen_type(rng, 2, 6)
+    sp_ = 0.6
+    if rng.random() < 0.5:
+        # index sets made of unit summands: patterns select single elements / shifted blocks, so the
+        # support of the solution has to grow over several applications of a
+        U = lambda k: ('sum', tuple(('atom', 1) for _ in range(k)))
+        T = ('prod', (U(rng.choice([2, 3])), U(2))) if rng.random() < 0.7 else U(rng.choice([3, 4]))
+        sp_ = 0.95
     n = TP.t_numel(T)
     dtype = torch.bool if S == 'bool' else torch.float64
     sr = G.make_semiring(fggs, S, torch.float64)
     zero = sr.from_int(0).item()
     scale = rng.choice([0.1, 0.2])
     vals = [0.0, 0.0, 1.0 * scale, 2.0 * scale, 0.5 * scale]
-    pa = TP.gen_pattern(rng, [T, T], lambda: conv(rng.choice(vals), S), zero)
+    pa = TP.gen_pattern(rng, [T, T], lambda: conv(rng.choice(vals), S), zero, structure_p=sp_, share_p=0.5)
+    shift = rng.random() < 0.35
+    if shift:
+        # "shift" matrices over a product index set {0..k-1}^m: a physical axis sits at different factor
+        # positions of the row and the column index, the other positions are constants, b is (almost) one-hot;
+        # the support of the solution then has to grow over several applications of a
+        k, m = rng.choice([2, 2, 3]), rng.choice([2, 2, 3])
+        T = ('prod', tuple(('sum', tuple(('atom', 1) for _ in range(k))) for _ in range(m)))
+        n = k ** m
+        const = lambda c: {'before': c, 'term': [], 'after': k - 1 - c}
+        i, j = rng.sample(range(m), 2)
+        row = [const(rng.randrange(k)) for _ in range(m)]
+        col = [const(rng.randrange(k)) for _ in range(m)]
+        row[i], col[j] = 0, 0
+        psz = [k]
+        if m == 3 and rng.random() < 0.5:
+            l = next(x for x in range(m) if x not in (i, j))
+            row[l], col[l] = 1, 1           # a second axis shared in place
+            psz = [k, k]
+        vals_ = [1.0 * scale * 3, 2.0 * scale * 3, 0.5]
+        pa = dict(psizes=psz, vaxes=[row, col], default=zero, physical=TP._nested(psz, lambda: conv(rng.choice(vals_), S)), expand=[])
+        bfac = [const(rng.randrange(k)) for _ in range(m)]
+        if rng.random() < 0.5:
+            bfac = [f if not isinstance(f, int) else const(rng.randrange(k)) for f in col]   # b lives where the columns of a can read it
+        pb_ = dict(psizes=[], vaxes=[bfac], default=zero if rng.random() < 0.9 else conv(0.5, S), physical=conv(rng.choice([1.0, 2.0]), S), expand=[])
     extra = [TP.gen_type(rng, 1, 3)] if rng.random() < 0.4 else []
-    pb = TP.gen_pattern(rng, [T] + extra, lambda: conv(rng.choice([0.0, 1.0, 0.5, 2.0]), S), zero if rng.random() < 0.8 else conv(0.5, S))
+    pb = TP.gen_pattern(rng, [T] + extra, lambda: conv(rng.choice([0.0, 1.0, 0.5, 2.0]), S), zero if rng.random() < 0.8 else conv(0.5, S), structure_p=sp_)
+    if shift:
+        pb = pb_
     a = TP.realise(I, pa, dtype)
     b, _ = TP.realise_sharing(I, rng, pb, dtype, a)
     da = torch.tensor(A.densify(pa)[0], dtype=dtype).reshape(A.shape_of(pa))
